@@ -91,7 +91,9 @@ func FragmentProgram(r *lib.Rand) []luagen.Stmt {
 		prog = append(prog, &luagen.Local{Names: []string{"z"}, Es: []luagen.Expr{&luagen.Num{V: 1000}}})
 		g.locals = append(g.locals, "z")
 		for i := 1; i < 260; i++ {
-			prog = append(prog, &luagen.Assign{LHS: []luagen.Expr{&luagen.Var{Name: "z"}}, Es: []luagen.Expr{&luagen.Num{V: float64(1000 + i)}}})
+			// z = z + k: the constant is an RK operand up to index 255, a LOADK into a temporary above
+			prog = append(prog, &luagen.Assign{LHS: []luagen.Expr{&luagen.Var{Name: "z"}},
+				Es: []luagen.Expr{&luagen.Bin{Op: "+", A: &luagen.Var{Name: "z"}, B: &luagen.Num{V: float64(1000 + i)}}}})
 		}
 	}
 	n := r.Range(2, 12)
